@@ -173,10 +173,15 @@ func fileID(name string) int {
 func runLint(dirPath string, latest int, work string) (r result) {
 	os.MkdirAll(work, 0o755)
 	defer os.RemoveAll(work)
+	return runLintArgs(work, "migrate", "lint", "--dir", "file://"+dirPath,
+		"--dev-url", "sqlite://dev?mode=memory", "--latest", fmt.Sprint(latest), "--format", "{{ json . }}")
+}
+
+// runLintArgs runs the CLI with the given arguments in work and reads the JSON report.
+func runLintArgs(work string, args ...string) (r result) {
 	var res clirun.Result
 	for attempt := 0; attempt < 4; attempt++ {
-		res = clirun.Run(work, nil, "migrate", "lint", "--dir", "file://"+dirPath,
-			"--dev-url", "sqlite://dev?mode=memory", "--latest", fmt.Sprint(latest), "--format", "{{ json . }}")
+		res = clirun.Run(work, nil, args...)
 		if res.Exit != -1 {
 			break
 		}
@@ -184,6 +189,15 @@ func runLint(dirPath string, latest int, work string) (r result) {
 		time.Sleep(time.Duration(200*(attempt+1)) * time.Millisecond)
 	}
 	r.exit = res.Exit
+	// the two refusals of migrateLintRun's detector switch (stage env)
+	switch {
+	case res.Exit != 0 && strings.Contains(res.Stderr, "--latest or --git-base is required"):
+		r.obs = fmt.Sprintf("exit=%d err=required", r.exit)
+		return
+	case res.Exit != 0 && strings.Contains(res.Stderr, "--latest and --git-base are mutually exclusive"):
+		r.obs = fmt.Sprintf("exit=%d err=exclusive", r.exit)
+		return
+	}
 	var rep jsonReport
 	if err := json.Unmarshal([]byte(res.Stdout), &rep); err != nil {
 		r.err = fmt.Errorf("no JSON report (exit %d): %s | %s", res.Exit, trunc(res.Stdout, 200), trunc(res.Stderr, 300))
@@ -643,7 +657,7 @@ func uniq(l []string) []string {
 // ---------------------------------------------------------------- main
 
 func main() {
-	mode := flag.String("mode", "rand", "rand|exh|nl")
+	mode := flag.String("mode", "rand", "rand|exh|nl|gen|env")
 	tier := flag.String("tier", "quick", "quick|thorough")
 	outDir := flag.String("out", "", "output directory")
 	flag.Parse()
@@ -653,6 +667,17 @@ func main() {
 	}
 	w := out.New(*outDir)
 	defer w.Close()
+	if *mode == "gen" { // in-process stage: no CLI, no database (generic.go)
+		mainGeneric(w, *tier)
+		return
+	}
+	if *mode == "env" { // project file + explicit flags (envflags.go)
+		if !mainEnv(w, *tier) {
+			w.Close()
+			os.Exit(1)
+		}
+		return
+	}
 	tmpRoot := os.Getenv("TMPDIR")
 	if tmpRoot == "" {
 		tmpRoot = os.TempDir()
